@@ -79,6 +79,16 @@ def wide_ops(ctx: Ctx, table: list) -> list[dict]:
             bad = list(base)
             bad[rng.randrange(len(bad))] = rng.choice(alpha)
             ops.append({"op": "consistency", "kind": "iban", "t": bad})
+    # national validation in every country that has a national algorithm: ISO-valid texts of every
+    # shape the structure allows (letters wherever they may stand, extremes) - a national algorithm
+    # must answer with a verdict or a library error, whatever the account looks like
+    import c06
+    for row in rows:
+        if gen.cc_of(row) not in c06.NAT:
+            continue
+        for i in range(8 if ctx.quick else 60):
+            t = gen.valid_iban(row, rng, ("letters", "random", "high", "low")[i % 4])
+            iban(t, vb=True, entries=("iban.new", "iban.validate"))
     # national validation through every kind of German bank: one bank code per Bundesbank method id
     # the registry names (implemented or not), plus unlisted codes - nothing but library errors
     import c07
